@@ -4,7 +4,7 @@
 //! real code; only the wire, the listener, the service body and the scheduler are ours.
 
 use crate::{
-    server_world::{flag_of, CallSpec, ClientSpec, SvcError},
+    server_world::{flag_of, padstr, CallSpec, ClientSpec, SvcError},
     world::{SimSocket, World},
 };
 use futures_util::{pin_mut, stream::Stream, StreamExt};
@@ -34,6 +34,8 @@ enum CliMethod {
     Slow { cid: u32, seq: u32, polls: u32 },
     #[serde(rename = "org.example.Stream")]
     Stream { cid: u32, seq: u32, flags: Vec<u8>, ends: bool },
+    #[serde(rename = "org.example.Len")]
+    Len { cid: u32, seq: u32, pad: String },
 }
 
 #[derive(Debug, Deserialize)]
@@ -49,6 +51,9 @@ trait SvcProxy {
     async fn echo(&mut self, cid: u32, seq: u32, pad: &str) -> zlink_core::Result<Result<AnyRep, SvcError>>;
     async fn fail(&mut self, cid: u32, seq: u32) -> zlink_core::Result<Result<AnyRep, SvcError>>;
     async fn slow(&mut self, cid: u32, seq: u32, polls: u32) -> zlink_core::Result<Result<AnyRep, SvcError>>;
+    async fn len(&mut self, cid: u32, seq: u32, pad: &str) -> zlink_core::Result<Result<AnyRep, SvcError>>;
+    #[zlink(oneway, rename = "Len")]
+    async fn len_oneway(&mut self, cid: u32, seq: u32, pad: &str) -> zlink_core::Result<()>;
     #[zlink(oneway, rename = "Echo")]
     async fn echo_oneway(&mut self, cid: u32, seq: u32, pad: &str) -> zlink_core::Result<()>;
     #[zlink(oneway, rename = "Fail")]
@@ -65,14 +70,10 @@ trait SvcProxy {
     ) -> zlink_core::Result<impl Stream<Item = zlink_core::Result<Result<AnyRep, SvcError>>>>;
 }
 
-fn padstr(n: usize, salt: u32) -> String {
-    let alphabet = b"abcdefghijklmnopqrstuvwxyz0123456789";
-    (0..n).map(|i| alphabet[(i * 5 + salt as usize) % alphabet.len()] as char).collect()
-}
-
 fn mk_call(cid: u32, seq: u32, c: &CallSpec) -> Call<CliMethod> {
     let m = match c {
         CallSpec::Echo { pad, .. } => CliMethod::Echo { cid, seq, pad: padstr(*pad, cid * 7 + seq) },
+        CallSpec::Len { pad, .. } => CliMethod::Len { cid, seq, pad: padstr(*pad, cid * 7 + seq) },
         CallSpec::Fail { .. } => CliMethod::Fail { cid, seq },
         CallSpec::Slow { polls, .. } => CliMethod::Slow { cid, seq, polls: *polls },
         CallSpec::Stream { flags, ends } => CliMethod::Stream { cid, seq, flags: flags.clone(), ends: *ends },
@@ -184,6 +185,13 @@ pub async fn run_real_client(world: World, mut conn: Connection<SimSocket>, spec
                 let seq = i as u32;
                 let single = match &c {
                     CallSpec::Echo { pad, oneway: false } => Some(conn.echo(cid, seq, &padstr(*pad, cid * 7 + seq)).await),
+                    CallSpec::Len { pad, oneway: false } => Some(conn.len(cid, seq, &padstr(*pad, cid * 7 + seq)).await),
+                    CallSpec::Len { pad, oneway: true } => {
+                        if let Err(e) = conn.len_oneway(cid, seq, &padstr(*pad, cid * 7 + seq)).await {
+                            bail!("proxy oneway call {i} failed: {e:?}");
+                        }
+                        None
+                    }
                     CallSpec::Fail { oneway: false } => Some(conn.fail(cid, seq).await),
                     CallSpec::Slow { polls, oneway: false } => Some(conn.slow(cid, seq, *polls).await),
                     CallSpec::Echo { pad, oneway: true } => {
